@@ -186,8 +186,8 @@ def run(ck: Checker):
 
     ck.rule('C04.CONE', 'cone extraction folded over model circuits with an oracle cut family: leaf patterns, closed cones in topological order, size = gates other than NOT (the search budget), outputs = gates read from outside or circuit outputs, patterns = functions of the leaves, and the don\'t-care rows of evaluate_truth_table_with_dont_cares aligned with the pattern bits')
     from .. import subc_fold
-    subc_fold.fold_cones(ck, 'C04.CONE')
-    ck.floor('C04.CONE', 3)
+    if subc_fold.fold_cones(ck, 'C04.CONE') is not False:
+        ck.floor('C04.CONE', 3)
     # the synthesiser the splice relies on: the k-th output of the synthesised circuit must compute the k-th row of the model, and
     # there must be exactly one output gate per row (the splice pairs cone outputs with synthesised outputs by position).  The fold
     # above replaces CircuitFinderSat by an oracle, so its encoding and decoder are decided here by the rules of C06 (shared).
